@@ -192,7 +192,7 @@ func runC11(r *ev.Recorder) {
 	r.Rule = "Complete domains: bool, all int8/uint8/int16/uint16 values (thorough: all 2^32 float32 bit patterns, non-finite skipped). " +
 		"Complete structured families for wider types: +-2^k+d (|d|<=2), all values with <=2 set bits, type limits +-1; float64/float32: every exponent x 24 mantissa patterns x sign, " +
 		"every m*10^k (m in 1..999, k in -330..310 resp. -50..40), subnormal extremes, +-0; complex: all pairs of a float pool. Each via Lit and (structured families) LitFunc. " +
-		"Every ordered pair of 25 values of all types (several with the same numeric value) inside 9 contexts (Call, Parens, Custom groups with operator separators, Index, Values, Dict, after LitRune/LitByte) must render each literal exactly as alone. Every typed literal in a File that imports a package whose last path element, ImportName or ImportAlias is the literal's type name (literal first / import first): the file type-checks and the constant has exactly its type. Oracle: go/types evaluates the rendered text as ONE constant expression; typed literals must have exactly the type, bare ones the default type, and the value (converted to the type) must equal the input. " +
+		"Every ordered pair of 29 values of all types (several with the same numeric value, several negative) inside 12 contexts (after unary -, +, ^, &, <-; Call, Parens, Custom groups with operator separators, Index, Values, Dict, after LitRune/LitByte) must render each literal exactly as alone. Every typed literal in a File that imports a package whose last path element, ImportName or ImportAlias is the literal's type name (literal first / import first): the file type-checks and the constant has exactly its type. Oracle: go/types evaluates the rendered text as ONE constant expression; typed literals must have exactly the type, bare ones the default type, and the value (converted to the type) must equal the input. " +
 		"distinct_nontrivial = distinct rendered texts"
 	r.Assume = []string{"go/types + go/constant constant evaluation and conversion rounding of the installed toolchain",
 		"-0.0 is compared with == (Go constants have no negative zero)",
@@ -351,7 +351,7 @@ func runC11(r *ev.Recorder) {
 	// literals of different types with the same numeric value in ONE File do not influence each other
 	{
 		vals := []any{true, 65, int8(65), int16(65), int32(65), int64(65), uint(65), uint8(65), uint16(65), uint32(65), uint64(65), uintptr(65), float32(65), 65.0, complex64(65), complex128(65),
-			1.5, -2.5, complex128(1 + 2i), complex128(-1i), complex64(2 - 3i), complex128(0.5 + 4i), int32(-1), int32(0xD800), int64(1) << 40}
+			1.5, -2.5, -1, int64(-7), -1e21, float32(-0.5), complex128(1 + 2i), complex128(-1i), complex64(2 - 3i), complex128(0.5 + 4i), int32(-1), int32(0xD800), int64(1) << 40}
 		alone := func(v any) string { return jh.Raw(jen.Lit(v)).Out }
 		contexts := []struct {
 			name string
@@ -371,6 +371,9 @@ func runC11(r *ev.Recorder) {
 			{"Dict", func(items ...jen.Code) jen.Code {
 				return jen.Map(jen.Id("K")).Id("V").Values(jen.Dict{items[0]: items[1]})
 			}},
+			{"unary minus", func(items ...jen.Code) jen.Code { return jen.Op("-").Add(items[0]).Op("-").Op("-").Add(items[1]) }},
+			{"unary plus and xor", func(items ...jen.Code) jen.Code { return jen.Op("+").Add(items[0]).Op("+").Op("^").Add(items[1]) }},
+			{"address-of and receive", func(items ...jen.Code) jen.Code { return jen.Op("&").Add(items[0]).Op("<-").Add(items[1]) }},
 			{"LitRune first", func(items ...jen.Code) jen.Code {
 				return jen.Id("g").Call(jen.LitRune(65), jen.LitByte(65), items[0], items[1])
 			}},
@@ -448,6 +451,39 @@ func runC11(r *ev.Recorder) {
 					}
 					if msg != "" {
 						r.Violate(ev.Violation{Signature: "c11:type-name-shadowed:" + tn, What: desc + ": " + jh.Short(msg, 200), Case: ev.JSON(c11Case{Type: "litfunc-stateful"}), Detail: msg})
+					}
+				}
+			}
+		}
+	}
+
+	// a literal directly after a prefix operator or a keyword in the same statement (no group in
+	// between): the operator and the literal's own sign must stay two tokens
+	{
+		vals := []any{1, -1, 0, -7, 1.5, -2.5, -1e21, 1e-7, -0.0001, int8(-3), int64(-9), float32(-0.5), uint8(2), complex128(-1i), complex128(-2 - 3i), complex64(-1), true, false}
+		for _, op := range []string{"-", "+", "^", "!", "&", "*", "<-"} {
+			for _, kw := range []bool{false, true} {
+				for _, v := range vals {
+					st := jen.Op(op).Lit(v)
+					want := op + " " + jh.Raw(jen.Lit(v)).Out
+					if kw {
+						st = jen.Return().Op(op).Lit(v).Op(op).Op(op).Lit(v)
+						want = "(" + want + ") " + op + " (" + want + ")"
+					}
+					got := jh.Raw(st)
+					if kw {
+						got.Out = strings.TrimPrefix(got.Out, "return ")
+					}
+					if op == "!" || op == "&" || op == "*" || op == "<-" {
+						if kw {
+							continue // not a binary operator
+						}
+					}
+					r.Eval(1)
+					r.Distinct(fmt.Sprintf("prefix-%s-%v-%v", op, kw, v))
+					if !got.OK() || !c11SameExpr(got.Out, want) {
+						r.Violate(ev.Violation{Signature: "c11:literal-after-operator:" + op, What: fmt.Sprintf("Op(%q).Lit(%T %v) (after a keyword and twice: %v) renders %q, which is not the expression %q", op, v, v, kw, got, want),
+							Case: ev.JSON(c11Case{Type: "litfunc-stateful"}), Detail: "a literal fused with the operator before it"})
 					}
 				}
 			}
